@@ -64,9 +64,9 @@ import (
 
 func cases(tier string) int {
 	if tier == "thorough" {
-		return 15000
+		return 80000
 	}
-	return 480
+	return 1600
 }
 
 func TestCheck(t *testing.T) {
@@ -340,6 +340,15 @@ func buildScenario(r *vf.Rand) *scenario {
 			p.hdr = gen.Header(hr, shape, ssrc, pt, seq, p.uid, st.twccID)
 			if p.s >= 0 && st.twccID != 0 {
 				_ = p.hdr.SetExtension(st.twccID, []byte{byte(p.uid >> 8), byte(p.uid)})
+			}
+			if s.kind == kPacing && !s.oversize {
+				// Packets of 1500 bytes or more (>= the minimum bucket of 8*1500 bit) are the
+				// input class of the `oversize` cases only, so that a pacer that cannot
+				// release them does not blind the other oracles in every case with a large
+				// header.
+				if hs := p.hdr.MarshalSize(); hs+plen >= 1500 {
+					plen = max(0, 1499-hs)
+				}
 			}
 			p.payload = gen.Payload(hr, plen, uint64(p.uid)<<32|uint64(p.w)<<16|uint64(uint16(p.s)))
 			p.hdrRef = imageOf(&p.hdr)
